@@ -69,26 +69,39 @@ impl LogWriter for SyslogWriter {
             return Ok(());
         }
 
+        // Take the buffer out of the mutex and format without holding the lock: the format
+        // function can call back into the logger (log calls in Display or Debug implementations
+        // of the arguments), and the mutex is not reentrant.
+        let mut buf = std::mem::take(
+            &mut self
+                .m_conn_buf
+                .lock()
+                .map_err(|_| crate::util::io_err("SyslogWriter is poisoned"))?
+                .buf,
+        );
+        buf.clear();
+        let formatted = self
+            .line_writer
+            .write_syslog_entry(&mut Cursor::new(&mut buf), now, record);
+
         let mut conn_buf_guard = self
             .m_conn_buf
             .lock()
             .map_err(|_| crate::util::io_err("SyslogWriter is poisoned"))?;
         let cb = &mut *conn_buf_guard;
-        cb.buf.clear();
-        let mut buffer = Cursor::new(&mut cb.buf);
+        let result = formatted.and_then(|()| {
+            #[cfg(test)]
+            {
+                let mut valbuf = self.validation_buffer.lock().unwrap();
+                valbuf.write_all(&buf)?;
+                valbuf.write_all(b"\n")?;
+            }
 
-        self.line_writer
-            .write_syslog_entry(&mut buffer, now, record)?;
-
-        #[cfg(test)]
-        {
-            let mut valbuf = self.validation_buffer.lock().unwrap();
-            valbuf.write_all(&cb.buf)?;
-            valbuf.write_all(b"\n")?;
-        }
-
-        // we _have_ to buffer above because each write here generates a syslog entry
-        cb.conn.write_all(&cb.buf)
+            // we _have_ to buffer above because each write here generates a syslog entry
+            cb.conn.write_all(&buf)
+        });
+        cb.buf = buf;
+        result
     }
 
     fn flush(&self) -> IoResult<()> {
